@@ -1048,8 +1048,11 @@ def list_contributions(func, name):
         for child in ast.iter_child_nodes(node):
             parents[child] = node
 
+    conds_of = {}
+
     def context(stmt):
         domains, conditional = [], False
+        conds = []
         cur = stmt
         while cur in parents and parents[cur] is not root:
             par = parents[cur]
@@ -1060,19 +1063,29 @@ def list_contributions(func, name):
                     for sib in par.body:
                         if sib is cur:
                             break
-                        if any(isinstance(s, (ast.Continue, ast.Break,
-                                              ast.Return, ast.Raise))
-                               for s in ast.walk(sib)):
+                        if isinstance(sib, ast.If) and not sib.orelse and \
+                                len(sib.body) == 1 and \
+                                isinstance(sib.body[0], ast.Continue):
+                            conds.append((sib.test, False))
+                            conditional = True
+                        elif any(isinstance(s, (ast.Continue, ast.Break,
+                                                ast.Return, ast.Raise))
+                                 for s in ast.walk(sib)):
+                            conds.append((None, None))
                             conditional = True
                 else:
                     conditional = True
-            elif isinstance(par, (ast.If, ast.While, ast.Try,
-                                  ast.ExceptHandler)):
-                if not (isinstance(par, ast.If) and
-                        isinstance(par.test, ast.Constant) and
+                    conds.append((None, None))
+            elif isinstance(par, ast.If):
+                if not (isinstance(par.test, ast.Constant) and
                         par.test.value is True):
                     conditional = True
+                    conds.append((par.test, cur in par.body))
+            elif isinstance(par, (ast.While, ast.Try, ast.ExceptHandler)):
+                conditional = True
+                conds.append((None, None))
             cur = par
+        conds_of[id(stmt)] = conds
         return domains, conditional
 
     def from_value(value, node, domains, conditional):
@@ -1130,6 +1143,18 @@ def list_contributions(func, name):
         elif isinstance(sub, ast.Delete) and any(
                 name in N.txt(t) for t in sub.targets):
             out.append({'other': sub})
+    for part in out:
+        if 'other' in part:
+            continue
+        conds = list(conds_of.get(id(part['node']), []))
+        node = part['node']
+        if isinstance(node, (ast.Assign, ast.AugAssign)) and \
+                isinstance(node.value, ast.ListComp):
+            for gen in node.value.generators:
+                conds.extend((test, True) for test in gen.ifs)
+        # conds: [(test expression, outcome)] guarding the contribution;
+        # (None, None) marks a guard that is not a plain condition
+        part['conds'] = conds
     return out
 
 
